@@ -2,20 +2,24 @@ import MJ.Model.Meta
 /-! Line driver for C18.
 
 stdin: one template per line, the real AST as prefix tokens (see `harness/src/bin/c18.rs`).
-stdout, per line:  `und=<names>\tselfref=<names>\tmay=<names | SKIP:reason>`
+stdout, per line:  `und=<names>\tnested=<dotted names>\tselfref=<names>\tmay=<names | SKIP:reason>`
   * `und`     — `findUndeclared` of the model,
+  * `nested`  — `findUndeclaredNested` of the model, rendered as dotted names,
   * `selfref` — `selfRefsL` (the exception set of the known finding),
-  * `may`     — union of `reads t cs` over every choice tree of the template (loops: no item /
-                all filtered / one iteration; macros: never called / called once), or `SKIP` when
-                the template uses something the semantics does not model or has too many
-                executions.
+  * `may`     — union of `reads t cs 1` over the choice trees of the template (loops: no item /
+                all filtered / one iteration; macros: never called / called once; every block
+                additionally rendered once through a `self.name()` request at the very first
+                statement, where no frame binds anything), or `SKIP` when the template uses
+                something the semantics does not model (include/import/extends) or has too many
+                executions.  Re-entries of recursive loops are not enumerated: the frames of a
+                re-entry bind at least what the frames of an iteration bind.
 -/
 open MJ.Meta
 
 structure P where
   toks : Array String
   pos : Nat := 0
-  /-- template contains `break`/`continue`, a recursive loop or a multi-template statement -/
+  /-- template contains a multi-template statement (include/import/extends) -/
   unmodelled : Bool := false
 
 abbrev PM := StateT P (Except String)
@@ -128,10 +132,9 @@ partial def pStmt : PM Stmt := do
   | "raw" => pure .raw
   | "for" => do
       let r ← next
-      if r == "1" then markUnmodelled
       let target ← pExpr; let iter ← pExpr; let filter ← pOpt
       let body ← pStmts; let els ← pStmts
-      pure (.forLoop target iter filter body els)
+      pure (.forLoop target iter filter (r == "1") body els)
   | "if" => do
       let c ← pExpr; let t ← pStmts; let f ← pStmts
       pure (.ifCond c t f)
@@ -165,9 +168,14 @@ partial def pStmt : PM Stmt := do
   | "do" => do
       let (callee, cargs) ← pCall
       pure (.doStmt callee cargs)
-  -- `Continue | Break => {}` in track_walk; control flow not modelled
-  | "continue" => do markUnmodelled; pure .raw
-  | "break" => do markUnmodelled; pure .raw
+  | "continue" => pure .cont
+  | "break" => pure .brk
+  | "block" => do
+      let name ← next
+      pure (.block name (← pStmts))
+  -- include / import / from-import / extends: `track_walk` ignores them (apart from the import
+  -- aliases), the semantics does not model them
+  | "unsupported" => do markUnmodelled; pure .raw
   | other => throw s!"unsupported statement {other}"
 partial def pStmts : PM (List Stmt) := do
   let n ← nextNat
@@ -180,7 +188,7 @@ def cap : Nat := 3000
 
 mutual
 partial def countCh : Stmt → Nat
-  | .forLoop _ _ _ body els => 2 * countList els + countList body
+  | .forLoop _ _ _ _ body els => 2 * countList els + countList body
   | .ifCond _ t f => countList t + countList f
   | .withBlock _ body => countList body
   | .setBlock _ _ body => countList body
@@ -188,6 +196,7 @@ partial def countCh : Stmt → Nat
   | .filterBlock _ body => countList body
   | .macro _ _ _ body => 1 + countList body
   | .callBlock _ _ _ _ body => 1 + countList body
+  | .block _ body => countList body
   | _ => 1
 partial def countList : List Stmt → Nat
   | [] => 1
@@ -196,17 +205,18 @@ end
 
 mutual
 partial def enumCh : Stmt → List Ch
-  | .forLoop _ _ _ body els =>
-      (enumList els).map (fun cs => Ch.mk 0 [cs]) ++ (enumList els).map (fun cs => Ch.mk 1 [cs])
-        ++ (enumList body).map (fun cs => Ch.mk 2 [cs])
+  | .forLoop _ _ _ _ body els =>
+      (enumList els).map (fun cs => Ch.mk 0 [cs] []) ++ (enumList els).map (fun cs => Ch.mk 1 [cs] [])
+        ++ (enumList body).map (fun cs => Ch.mk 2 [cs] [])
   | .ifCond _ t f =>
-      (enumList f).map (fun cs => Ch.mk 0 [cs]) ++ (enumList t).map (fun cs => Ch.mk 1 [cs])
-  | .withBlock _ body => (enumList body).map (fun cs => Ch.mk 0 [cs])
-  | .setBlock _ _ body => (enumList body).map (fun cs => Ch.mk 0 [cs])
-  | .autoEscape _ body => (enumList body).map (fun cs => Ch.mk 0 [cs])
-  | .filterBlock _ body => (enumList body).map (fun cs => Ch.mk 0 [cs])
-  | .macro _ _ _ body => Ch.mk 0 [] :: (enumList body).map (fun cs => Ch.mk 0 [cs])
-  | .callBlock _ _ _ _ body => Ch.mk 0 [] :: (enumList body).map (fun cs => Ch.mk 0 [cs])
+      (enumList f).map (fun cs => Ch.mk 0 [cs] []) ++ (enumList t).map (fun cs => Ch.mk 1 [cs] [])
+  | .withBlock _ body => (enumList body).map (fun cs => Ch.mk 0 [cs] [])
+  | .setBlock _ _ body => (enumList body).map (fun cs => Ch.mk 0 [cs] [])
+  | .autoEscape _ body => (enumList body).map (fun cs => Ch.mk 0 [cs] [])
+  | .filterBlock _ body => (enumList body).map (fun cs => Ch.mk 0 [cs] [])
+  | .macro _ _ _ body => Ch.mk 0 [] [] :: (enumList body).map (fun cs => Ch.mk 0 [cs] [])
+  | .callBlock _ _ _ _ body => Ch.mk 0 [] [] :: (enumList body).map (fun cs => Ch.mk 0 [cs] [])
+  | .block _ body => (enumList body).map (fun cs => Ch.mk 0 [cs] [])
   | _ => [Ch.default]
 partial def enumList : List Stmt → List (List Ch)
   | [] => [[]]
@@ -218,8 +228,23 @@ end
 def dedup (xs : List String) : List String :=
   (xs.foldl (fun (acc : Array String) x => if acc.contains x then acc else acc.push x) #[]).toList
 
+/-- `self.name()` requests for every block of the template (at top level the running-loop list
+is empty, so block `i` is request target `i`) with every choice tree of its body -/
+def blockReqs (t : List Stmt) : List Ch :=
+  (blockBodiesL t).zipIdx.flatMap (fun (body, i) => (enumList body).map (fun cs => Ch.mk i [cs] []))
+
+def withReqs (reqs : List Ch) : List Ch → List Ch
+  | [] => []
+  | c :: cs => Ch.mk c.n c.subs reqs :: cs
+
+def blocksCount (t : List Stmt) : Nat :=
+  (blockBodiesL t).foldl (fun acc body => acc + countList body) 0
+
 def mayReads (t : List Stmt) : List String :=
-  dedup ((enumList t).flatMap (fun cs => reads t cs))
+  let reqs := blockReqs t
+  dedup ((enumList t).flatMap (fun cs => reads t (withReqs reqs cs) 1))
+
+def dotted (l : Leaf) : String := ".".intercalate (l.1 :: l.2)
 
 def join (xs : List String) : String := " ".intercalate (dedup xs)
 
@@ -231,9 +256,9 @@ def handle (line : String) : String :=
     if p.pos ≠ toks.size then "error=trailing tokens" else
     let may :=
       if p.unmodelled then "SKIP:unmodelled"
-      else if countList t > cap then "SKIP:too-many-executions"
+      else if countList t > cap || blocksCount t > cap then "SKIP:too-many-executions"
       else join (mayReads t)
-    s!"und={join (findUndeclared t)}\tselfref={join (selfRefsL t)}\tmay={may}"
+    s!"und={join (findUndeclared t)}\tnested={join ((findUndeclaredNested t).map dotted)}\tselfref={join (selfRefsL t)}\tmay={may}"
 
 partial def loop (h : IO.FS.Stream) (out : IO.FS.Stream) : IO Unit := do
   let line ← h.getLine
